@@ -61,7 +61,32 @@ def Obj.findSymbols (p : String → Bool) (o : Obj) : List Sym :=
 def getSymbols (objs : List Obj) (p : String → Bool) : List Sym :=
   objs.flatMap (Obj.findSymbols p)
 
-/-! ### the registry: `files: HashMap<PathBuf, DebugInformation>` -/
+/-! ### the registry: `files: HashMap<PathBuf, DebugInformation>`
+
+`DebugInformationBuilder::build` computes `symbol_table` once, when the object is loaded; `Entry` is the object
+together with that field, and `getSymbolsE` is `get_symbols` reading the stored field. -/
+
+structure Entry where
+  obj : Obj
+  table : Option (List Sym)
+deriving Repr, Inhabited
+
+/-- `DebugInformationBuilder::build` -/
+def load (o : Obj) : Entry := ⟨o, o.table⟩
+
+def Entry.findSymbols (p : String → Bool) (e : Entry) : List Sym :=
+  match e.table with
+  | some t => tabFind p t
+  | none => []
+
+def getSymbolsE (es : List Entry) (p : String → Bool) : List Sym :=
+  es.flatMap (Entry.findSymbols p)
+
+def regAddE (e : Entry) : List Entry → List Entry
+  | [] => [e]
+  | x :: rest => if x.obj.file = e.obj.file then e :: rest else x :: regAddE e rest
+
+def regRemoveE (file : String) (es : List Entry) : List Entry := es.filter fun x => x.obj.file ≠ file
 
 /-- `DwarfRegistry::add` (`HashMap::insert`: an object of the same path is replaced) -/
 def regAdd (o : Obj) : List Obj → List Obj
